@@ -17,7 +17,7 @@ RULE = (
     "A program is a sequence of <= 8 (quick) / 12 (thorough) operations drawn from {add, sub, scalar multiple, tensor product, transpose, "
     "contract, multicontract, levi_civita_contract, convolve_with(filter), norm}, each enabled by a precondition on the symbolic pool of "
     "(k,parity,magnitude bound) entries (construction, not rejection), over 1-3 integer leaf images (d in {2,3}, common possibly non-square shape, "
-    "k<=3 (d=2) / k<=2 (d=3), both parities, per-axis torus flags) and 0-2 leaf filters. For a set of group elements (all 8 in d=2; generators of B_3 plus "
+    "leaf k<=3 (d=2) / k<=2 (d=3), intermediate orders up to 6 / 4, both parities, per-axis torus flags) and 0-2 leaf filters. For a set of group elements (all 8 in d=2; generators of B_3 plus "
     "3 drawn elements in d=3) a shadow pool is evaluated from the reference-transformed leaves; after every step every shadow entry must equal the "
     "reference action with the entry's *declared* (k,parity) applied to the original entry, with transported extents and flags, and the declared type "
     "must equal the type algebra of the statement. Exact comparison; relative 1e-4 below a norm node. Side laws: contraction pair order / order inside "
@@ -47,7 +47,7 @@ def _gens3():
 def draw_case(data, tier):
     d = data.draw(st.sampled_from([2, 2, 3]), label="d")
     kmax = 3 if d == 2 else 2
-    kcap = 4 if d == 2 else 3
+    kcap = 6 if d == 2 else 4  # intermediate tensor orders up to 6 (d=2) / 4 (d=3): three contraction pairs become possible
     shape, _ = gen.draw_shape(data, d, 2, 4 if d == 2 else 3, classes=("cubic", "distinct", "free"))
     torus = gen.draw_torus(data, d)
     nleaf = data.draw(st.integers(1, 3), label="nleaf")
@@ -63,9 +63,21 @@ def draw_case(data, tier):
     # on cubic shapes the library's Kronecker-delta image (an invariant (2,0) tensor field) may join the leaves
     if len(set(shape)) == 1 and data.draw(st.integers(0, 3), label="kron_leaf") == 0:
         leaves.append({"k": 2, "p": 0, "praw": 0, "seed": 0, "kron": True})
+    deep = d == 2 and data.draw(st.integers(0, 7), label="deep_contraction") == 0
+    if deep:
+        # template: an order-6 tensor (product of two order-3 leaves) contracted over three pairs in a drawn order
+        leaves = [{"k": 3, "p": data.draw(st.integers(0, 1)), "praw": 0, "seed": data.draw(st.integers(0, 9999))} for _ in range(2)]
+        for l in leaves:
+            l["praw"] = l["p"]
     pool = [{"k": l["k"], "p": l["p"], "b": 2, "norm": False} for l in leaves]
     steps = data.draw(st.integers(1, 8 if tier == "quick" else 12), label="nsteps")
     prog = []
+    if deep:
+        idx = list(data.draw(st.permutations(list(range(6))), label="deep_idx"))
+        prog.append({"op": "mul", "a": 0, "b": 1})
+        pool.append({"k": 6, "p": (leaves[0]["p"] + leaves[1]["p"]) % 2, "b": 4, "norm": False})
+        prog.append({"op": "multicontract", "a": len(pool) - 1, "pairs": [[idx[0], idx[1]], [idx[2], idx[3]], [idx[4], idx[5]]]})
+        pool.append({"k": 0, "p": pool[-1]["p"], "b": 32, "norm": False})
     for _ in range(steps):
         enabled = ["scalar"]
         same = [(i, j) for i in range(len(pool)) for j in range(len(pool)) if (pool[i]["k"], pool[i]["p"]) == (pool[j]["k"], pool[j]["p"]) and pool[i]["b"] + pool[j]["b"] < LIMIT]
